@@ -33,5 +33,8 @@ CONFIG = dict(
 
 
 def native_replay(v, path):
+    # fixed scenario (final clean-up with one registered waiter): confirms, never overrules
+    if not ("waiter" in v["obligation"] or "dependency_contract" in v["obligation"]):
+        return None
     rc, out = native.run_test("C12", "native/c12_replay.rs", "core/src/co_pool/mod.rs", "c12_native_replay", timeout=300)
-    return native.verdict(rc, out)
+    return native.verdict(rc, out, dict(decisive=False, scenario="fixed: c12_native_replay"))
